@@ -30,13 +30,21 @@ def get_type_size(context, type):
             for ftype in struct.fields.values()
         )
 
+def get_param_size(context, type):
+    # a record is passed as a reference to it: one cell, like any
+    # other argument
+    if type.is_user_defined:
+        return 1
+    return get_type_size(context, type)
+
+
 def get_local_var_idx(routine, var):
     context = routine.context
     idx = 0
     for pname, ptype in routine.params.items():
         if var == pname:
             return idx
-        idx += get_type_size(context, ptype)
+        idx += get_param_size(context, ptype)
     for vname, vtype in routine.local_vars.items():
         if var == vname:
             return idx
@@ -58,7 +66,7 @@ def get_params_size(routine):
     # the number of cells in a call frame the parameters to a routine
     # need
     return sum(
-        get_type_size(routine.context, ptype)
+        get_param_size(routine.context, ptype)
         for ptype in routine.params.values()
     )
 
